@@ -14,7 +14,7 @@ import numpy as np
 from ..common import HarnessError, REPO, Report, VERIF, pmap
 
 PID = "C07"
-ACTS = ["draw17", "runother", "runother_seeded", "construct_only", "run_noisy", "options_logging", "run_1d_narrow", "same_arrays_first", "printoptions", "run_double_refit"]
+ACTS = ["draw17", "runother", "runother_seeded", "construct_only", "run_noisy", "options_logging", "run_1d_narrow", "same_arrays_first", "printoptions", "run_double_refit", "printformatter"]
 _SHARED = {}
 
 
@@ -92,6 +92,9 @@ def activity(a):
              plausible_lower_bounds=sb["plb"], plausible_upper_bounds=sb["pub"], options={"display": "off", "max_fun_evals": 12, "random_seed": 5}).optimize()
     elif a == "printoptions":
         np.set_printoptions(precision=3, threshold=5, edgeitems=1, linewidth=40)
+    elif a == "printformatter":
+        # earlier code installed NumPy print formatters (they apply to every later array-to-text conversion in the process)
+        np.set_printoptions(formatter={"int_kind": lambda v: "<%d>" % v, "float_kind": lambda v: "%.2f~" % v})
     elif a == "run_1d_narrow":
         # a 1-D problem in a narrow box with enough evaluations for several search steps (its search populations are
         # thinned differently by gridding / de-duplication / projection than those of the problems under test)
